@@ -10,7 +10,9 @@
 //!    independent naive matcher), no tuple is offered more often than it matches, and every match
 //!    of the body is offered now or was offered earlier (the query rule is semi-naive; earlier
 //!    offers are compared modulo the current union-find);
-//!  * no loss: what the scheduler did not choose is offered again at its next call;
+//!  * no loss: what the scheduler did not choose is offered again at its next call (modulo the
+//!    union-find), and with canonical ids (regression predicate of the fixed finding F7, key
+//!    "F7-scheduler-stale-ids");
 //!  * applied: the head of every chosen match holds after the step, modulo the equalities that
 //!    hold then; a step in which nothing was chosen changes nothing;
 //!  * choose-all == built-in `step_rules` on a clone run in lockstep (observations);
@@ -371,7 +373,8 @@ fn generate(seed: u64, ci: u64) -> Scenario {
     Scenario { p, setup, rules, bad, bad_fn, policy, variant, sched_seed, steps, tag: format!("seed={seed} case={ci}") }
 }
 
-/// F7 (DESIGN.md section 4): a match held back across a union is applied with stale ids.
+/// F7 (DESIGN.md section 4, fixed by /repo c01cd3e): a match held back across a union was applied
+/// with stale ids. Kept as a corpus seed that must pass.
 fn f7_scenario() -> Scenario {
     let decls = vec![
         Decl { name: "A".into(), kind: Kind::Ctor, args: vec![] },
@@ -715,6 +718,7 @@ struct Stats {
     missing_var: usize,
     offered_total: usize,
     dup_choice_calls: usize,
+    reoffer_canon_checks: usize,
 }
 
 fn bucket(n: usize) -> String {
@@ -875,6 +879,8 @@ fn run_scenario(sc: &Scenario, ci: u64, w: &mut CaseWriter, viols: &mut Vec<Viol
                     .collect(),
             );
         }
+        // snapshot for "held-back matches are offered with canonical ids" (only when something is held back)
+        let pre_eg: Option<EGraph> = if tracks.values().any(|tr| !tr.residual.is_empty()) { Some(eg.clone()) } else { None };
         {
             let mut s = sh.lock().unwrap();
             s.step = t;
@@ -977,6 +983,25 @@ fn run_scenario(sc: &Scenario, ci: u64, w: &mut CaseWriter, viols: &mut Vec<Viol
                     viols,
                 );
                 return nontrivial;
+            }
+            // held-back matches are offered (and applied) modulo the equalities that hold now:
+            // every id of the re-offered residual is its own representative before the step
+            if let Some(pe) = &pre_eg {
+                for tu in c.tuples[..rl].iter() {
+                    st.reoffer_canon_checks += 1;
+                    if let Some((v, _)) = tu.iter().zip(vars.iter()).find(|(v, x)| csorts.get(x) == Some(&Sort::S) && canon_u32(pe, v.rep()) != v.rep()) {
+                        viol(
+                            format!(
+                                "step {t} rule {}: a match held back by the scheduler is offered again with the displaced id {} (canonical {}): it would be applied with the ids it had when it was first offered",
+                                c.rule, v.rep(), canon_u32(pe, v.rep())
+                            ),
+                            "F7-scheduler-stale-ids",
+                            t,
+                            viols,
+                        );
+                        return nontrivial;
+                    }
+                }
             }
             // the model case for the previous instantiate: exact residual order
             if let Some((m, chosen, all)) = tr.pending_inst.take() {
@@ -1227,6 +1252,7 @@ fn main() {
         missing_var: 0,
         offered_total: 0,
         dup_choice_calls: 0,
+        reoffer_canon_checks: 0,
     };
     let mut scenarios: Vec<(Scenario, u64)> = Vec::new();
     if let Some(path) = &o.replay {
@@ -1324,6 +1350,7 @@ fn main() {
             "delayed_matches_applied_with_stale_id": st.delayed_stale_applied,
             "calls_for_variable_free_heads": st.varfree_calls,
             "calls_with_duplicate_choices": st.dup_choice_calls,
+            "reoffered_matches_checked_canonical": st.reoffer_canon_checks,
             "first_seek_multiset_equal_to_naive": format!("{}/{}", st.first_seek_exact, st.first_seek_total),
             "instantiate_model_cases": st.inst_cases,
             "offered_set_model_cases": st.off_cases,
